@@ -6,7 +6,8 @@
   initialize_ghe / compute_g_functions+size), every root finder.
 
   `Gen.Api.*` is regenerated from the sources on every check (translate/gen_api.py); the
-  `source_shape_*` theorems pin the facts the model transcribes (which slots `set_design`
+  `source_shape_*` theorems pin the facts the model transcribes (when the interpolation table is
+  rebuilt, which slots `set_design`
   captures, which statements write a borehole height, that `simulate` never tests `self.times`,
   that nothing stores into a `keep_contour` default).
 -/
@@ -106,57 +107,30 @@ theorem slots_after_history (K : Kernels) (m : Nat) (hist : List Op) (mg : Manag
 /-! ### 2. One GHE object: every call behaves as on a new object -/
 
 /-- **simulate_pure.**  For every sequence of `simulate`/`size`/`compute_g_functions` calls and
-    external height writes on one GHE, each call returns what the same call returns on the object
-    *as new* (`specG`: no interpolation table, no time axis, no stored results — only the stored
-    heights and the borehole height carry over).  Hypothesis `Covering`: no simulation of the
-    sequence is made at a height outside the stored g-function heights (a multi-height table would
-    otherwise be built in extrapolating mode by the first call and kept; see
-    `fill_mode_is_history` below).  In the tool's own pipeline the hypothesis holds
-    (`window_is_covered`). -/
-theorem simulate_pure (K : Kernels) (ops : List GOp) (s : GSt) (h0 : TableOK s.g.gf) (hc : Covering K ops s) :
+    external height writes on one GHE — any heights, inside or outside the stored g-function
+    heights — each call returns what the same call returns on the object *as new* (`specG`: no
+    interpolation table, no time axis, no stored results; only the stored heights and the borehole
+    height carry over).  No hypothesis: since fix 5ab5ff6 the interpolation table is rebuilt
+    whenever it was built for another (kind, fill mode) (`source_shape_gfunction`); before it the
+    statement needed every height to be covered by the stored ones (witness kept below as a
+    regression). -/
+theorem simulate_pure (K : Kernels) (ops : List GOp) (s : GSt) :
     (runG K ops s).1 = specG K ops s :=
-  runG_refines K ops s s ⟨rfl, ⟨rfl, rfl, rfl, rfl, h0, h0⟩⟩ hc
+  runG_refines K ops s s ⟨rfl, ⟨rfl, rfl, rfl, rfl⟩⟩
 
-/-- The sizing window is covered by the three heights `compute_g_functions` stores. -/
-theorem window_is_covered (sp : SimParams) (h : Rat) (hle : sp.minH ≤ sp.maxH) (h1 : sp.minH ≤ h) (h2 : h ≤ sp.maxH) :
-    Covered (cgfHeights sp) h := by
-  have hct : (0 : Rat) < closeTol := by unfold closeTol; norm_num
-  unfold cgfHeights
-  simp only
-  by_cases e1 : sp.minH = (sp.minH + sp.maxH) / 2
-  · rw [if_pos e1]
-    have : sp.maxH = sp.minH := by linarith
-    rw [if_pos this]; left; simp
-  · rw [if_neg e1]
-    have hlt : sp.minH < sp.maxH := by
-      rcases lt_or_eq_of_le hle with h | h
-      · exact h
-      · exfalso; apply e1; linarith
-    have e2 : ¬ (sp.maxH = sp.minH ∨ sp.maxH = (sp.minH + sp.maxH) / 2) := by
-      rintro (h | h) <;> linarith
-    rw [if_neg e2]
-    right
-    have m1 : ratMin sp.minH ((sp.minH + sp.maxH) / 2) = sp.minH := by unfold ratMin; rw [if_neg (by linarith)]
-    have m2 : ratMin sp.minH sp.maxH = sp.minH := by unfold ratMin; rw [if_neg (by linarith)]
-    have m3 : ratMax sp.minH ((sp.minH + sp.maxH) / 2) = (sp.minH + sp.maxH) / 2 := by unfold ratMax; rw [if_pos (by linarith)]
-    have m4 : ratMax ((sp.minH + sp.maxH) / 2) sp.maxH = sp.maxH := by unfold ratMax; rw [if_pos (by linarith)]
-    have hmin : listMin [sp.minH, (sp.minH + sp.maxH) / 2, sp.maxH] = sp.minH := by
-      simp only [listMin, List.foldl]; rw [m1, m2]
-    have hmax : listMax [sp.minH, (sp.minH + sp.maxH) / 2, sp.maxH] = sp.maxH := by
-      simp only [listMax, List.foldl]; rw [m3, m4]
-    unfold fillOf snap
-    simp only [hmin, hmax]
-    rw [if_pos]
-    left
-    by_cases c1 : ratAbs (h - sp.maxH) < closeTol
-    · rw [if_pos c1]
-      by_cases c2 : ratAbs (sp.maxH - sp.minH) < closeTol
-      · rw [if_pos c2]; exact ⟨le_refl _, hle⟩
-      · rw [if_neg c2]; exact ⟨hle, le_refl _⟩
-    · rw [if_neg c1]
-      by_cases c2 : ratAbs (h - sp.minH) < closeTol
-      · rw [if_pos c2]; exact ⟨le_refl _, hle⟩
-      · rw [if_neg c2]; exact ⟨h1, h2⟩
+/-- In particular a simulation appended to any history returns what it returns on a new object
+    with the same stored heights at the same borehole height. -/
+theorem simulate_after_any_history (K : Kernels) (ops : List GOp) (m : Method) (s : GSt) :
+    (gstep K (.simulate m) (runG K ops s).2).1 = (gstep K (.simulate m) (resetS (runG K ops s).2)).1 :=
+  (gstep_eqv K (.simulate m) _ _ (relS_reset _ _ ⟨rfl, ⟨rfl, rfl, rfl, rfl⟩⟩)).1
+
+/-- The interpolation table left behind is always the one a new object would build for the last
+    multi-curve lookup: `lookupCore` returns the pair (kind for the number of curves, fill mode of
+    this height) whatever table it found. -/
+theorem table_is_rebuilt (h0 h1 : Rat) (t : List Rat) (tb : Option (Kind × Fill)) (h : Rat) :
+    (lookupCore (h0 :: h1 :: t) tb h).2 = some (kindOf (h0 :: h1 :: t).length, fillOf (h0 :: h1 :: t) h) := by
+  simp only [lookupCore]
+  split_ifs with hc <;> first | rfl | (rw [hc]; rfl)
 
 /-! ### 3. Mutable default arguments -/
 
@@ -230,6 +204,17 @@ theorem source_shape_ghe :
     Gen.Api.cgfHeights = ["min_height", "avg_height", "max_height", "avg_height=(min_height + max_height) / 2.0"] := by
   decide
 
+/-- `g_function_interpolation` (re)builds its table when it is empty *or was built for another
+    (kind, fill mode)* (`lookupCore`); the hourly branch cuts the repeated loads at the horizon
+    (`hourlyAxis`). -/
+theorem source_shape_gfunction :
+    Gen.Api.tableBuildTests =
+      ["len(self.interpolation_table) == 0 or self.interpolation_table.get('built_for') != (kind, fill_value)"] ∧
+    Gen.Api.simulateHourlyLoads =
+      ["self.hybrid_load.load[2:] * 1000.0", "self.hourly_extraction_ground_loads", "(q_dot * n_years)[:n_hours]",
+       "-1.0 * np.array(q_dot)"] := by
+  decide
+
 /-! ### 5. Witnesses: non-vacuity, the repaired finding, the boundary of `simulate_pure` -/
 
 def st0 : Static :=
@@ -265,14 +250,17 @@ example : (runG K0 [.simulate .hybrid, .setH 80, .simulate .hourly, .size .hybri
            .temps (5343 / 160, 893 / 80), .unit, .temps (6603 / 200, 56 / 5)] := by
   decide +kernel
 
-/-- **Boundary of `simulate_pure`** (why `Covering` is a hypothesis): after a simulation inside the
-    stored range, a simulation *above* it raises (`interp1d` bounds error on the table built in
-    strict mode), whereas a new object extrapolates.  Real code: same behaviour (run). -/
+/-- Finding repaired by 5ab5ff6, kept as a regression: after a simulation inside the stored
+    range, a simulation *above* it extrapolates exactly as a new object does (before the repair the
+    used object raised `interp1d`'s bounds error); and the other direction (first call outside,
+    later calls inside). -/
 example :
     (runG K0 [.simulate .hybrid, .setH 150, .simulate .hybrid] { b := { H := 100, D := 2, rb := 7 / 100 }, g := g3 }).1 =
-      [.temps (7007 / 200, 11), .unit, .err .valueError] ∧
+      [.temps (7007 / 200, 11), .unit, .temps (6197 / 200, 23 / 2)] ∧
     specG K0 [.simulate .hybrid, .setH 150, .simulate .hybrid] { b := { H := 100, D := 2, rb := 7 / 100 }, g := g3 } =
-      [.temps (7007 / 200, 11), .unit, .temps (6197 / 200, 23 / 2)] := by
+      [.temps (7007 / 200, 11), .unit, .temps (6197 / 200, 23 / 2)] ∧
+    (runG K0 [.simulate .hybrid, .setH 100, .simulate .hybrid, .simulate .hourly] { b := { H := 150, D := 2, rb := 7 / 100 }, g := g3 }).1 =
+      specG K0 [.simulate .hybrid, .setH 100, .simulate .hybrid, .simulate .hourly] { b := { H := 150, D := 2, rb := 7 / 100 }, g := g3 } := by
   decide +kernel
 
 def hist0 : List Op :=
